@@ -519,6 +519,9 @@ func infeasible(atoms []PathAtom) bool {
 		return false
 	}
 	last := atoms[len(atoms)-1]
+	if blockingSelectExhausted(atoms) {
+		return true
+	}
 	ls := last.Cond.String()
 	lp := pure(last.Cond)
 	for _, a := range atoms[:len(atoms)-1] {
@@ -527,6 +530,46 @@ func infeasible(atoms []PathAtom) bool {
 		}
 	}
 	return false
+}
+
+// blockingSelectExhausted: the last atom denies the last remaining case of a
+// blocking select (the fall-through go/ssa emits is `panic("blocking select
+// matched no case")`, which cannot happen).
+func blockingSelectExhausted(atoms []PathAtom) bool {
+	selOf := func(a PathAtom) (*ssa.Select, int64, bool) {
+		if a.Pos || a.Cond.Op != OpBin || a.Cond.Tok != token.EQL || len(a.Cond.Args) != 2 {
+			return nil, 0, false
+		}
+		x, y := a.Cond.Args[0], a.Cond.Args[1]
+		sel, ok := x.V.(*ssa.Select)
+		if !ok || x.Name != "select.index" || !sel.Blocking {
+			return nil, 0, false
+		}
+		k, isC := y.ConstInt()
+		return sel, k, isC
+	}
+	last := atoms[len(atoms)-1]
+	sel, _, ok := selOf(last)
+	if !ok {
+		return false
+	}
+	// only the atoms after the most recent evaluation of this select count: walk back until an
+	// atom of the same select repeats an index
+	denied := map[int64]bool{}
+	for i := len(atoms) - 1; i >= 0; i-- {
+		s2, k, ok := selOf(atoms[i])
+		if !ok || s2 != sel {
+			if x := atoms[i].Cond; x.Op == OpBin && len(x.Args) == 2 && x.Args[0].V == ssa.Value(sel) {
+				break // a positive atom of this select: an earlier evaluation
+			}
+			continue
+		}
+		if denied[k] {
+			break
+		}
+		denied[k] = true
+	}
+	return len(denied) >= len(sel.States)
 }
 
 // FoldBool folds a comparison between constants.
